@@ -13,6 +13,42 @@ import (
 type Gen struct {
 	R   *hx.Rand
 	Env Env
+	// Replace is the chance (in %) that a statement op re-writes a stored row under its own primary
+	// key as Delete + Insert (what REPLACE does); 0 (C15) draws nothing extra.
+	Replace int
+}
+
+// StrVal draws a short string over {a,b,c}: values that agree on a short prefix and differ behind it
+// (or are shorter than it) are common.
+func StrVal(r *hx.Rand) Val {
+	n := r.Intn(7)
+	b := make([]byte, n)
+	for i := range b {
+		b[i] = "abc"[r.Intn(3)]
+	}
+	return memtbl.Str(string(b))
+}
+
+// TailMutation keeps the first keep bytes of a string value and re-draws what follows (never the
+// same value): the change a prefix index of length <= keep cannot see in its prefix.
+func TailMutation(r *hx.Rand, v Val, keep int) Val {
+	if !v.IsStr {
+		return v
+	}
+	if keep > len(v.S) {
+		keep = len(v.S)
+	}
+	for try := 0; try < 8; try++ {
+		n := r.Intn(4)
+		b := []byte(v.S[:keep])
+		for i := 0; i < n; i++ {
+			b = append(b, "abc"[r.Intn(3)])
+		}
+		if string(b) != v.S {
+			return memtbl.Str(string(b))
+		}
+	}
+	return memtbl.Str(v.S[:keep] + "cc")
 }
 
 func GenEnv(r *hx.Rand) Env {
@@ -57,7 +93,23 @@ func (g *Gen) Val(c int) Val {
 	if g.R.Chance(1, 8) {
 		return memtbl.Null
 	}
+	if g.Env.IsStr(c) {
+		return StrVal(g.R)
+	}
 	return memtbl.Int(int64(g.R.Intn(6)))
+}
+
+// maxPrefix is the longest prefix length an index declares on column c (0 = none).
+func (g *Gen) maxPrefix(c int) int {
+	m := 0
+	for _, d := range g.Env.Idx {
+		for j, dc := range d.Cols {
+			if dc == c && d.PrefixOf(j) > m {
+				m = d.PrefixOf(j)
+			}
+		}
+	}
+	return m
 }
 
 func (g *Gen) Row() Row {
@@ -118,6 +170,25 @@ func (g *Gen) Stmt(cur []Row, idxChance int) Stmt {
 	var ops []Op
 	for i := 0; i < n; i++ {
 		var o Op
+		if g.Replace > 0 && len(sh) > 0 && !g.Env.Keyless() && r.Intn(100) < g.Replace {
+			// REPLACE of a stored key: Delete(old) + Insert(new row, same primary key)
+			old := hx.Pick(r, sh)
+			nw := g.Row()
+			for _, c := range g.Env.PK {
+				nw[c] = old[c]
+			}
+			for c := range nw {
+				if g.Env.IsStr(c) && !old[c].Null && r.Chance(1, 2) {
+					nw[c] = TailMutation(r, old[c], g.maxPrefix(c))
+				}
+			}
+			ops = append(ops, Op{Kind: "d", R: old})
+			sh = ShadowApply(g.Env, sh, ops[len(ops)-1])
+			o = Op{Kind: "i", R: nw}
+			ops = append(ops, o)
+			sh = ShadowApply(g.Env, sh, o)
+			continue
+		}
 		switch k := r.Intn(100); {
 		case k < idxChance:
 			o = Op{Kind: "x"}
@@ -156,7 +227,11 @@ func (g *Gen) Stmt(cur []Row, idxChance int) Stmt {
 			if g.Env.IsPK(c) && !r.Chance(1, 3) {
 				c = r.Intn(g.Env.NCols)
 			}
-			nw[c] = g.Val(c)
+			if g.Env.IsStr(c) && !old[c].Null && r.Chance(1, 2) {
+				nw[c] = TailMutation(r, old[c], g.maxPrefix(c)) // the change stays behind every indexed prefix
+			} else {
+				nw[c] = g.Val(c)
+			}
 			o = Op{Kind: "u", R: old, N: nw}
 		}
 		ops = append(ops, o)
